@@ -76,7 +76,10 @@ func getCacheMaxAge(header http.Header) int {
 	// 如果有设置了 age 字段，则最大缓存时长减少
 	if age := header.Get(headerAge); age != "" {
 		v, _ := strconv.Atoi(age)
-		maxAge -= v
+		// age为非负整数，负数（非法值）不应延长缓存时长
+		if v > 0 {
+			maxAge -= v
+		}
 	}
 
 	return maxAge
